@@ -128,7 +128,27 @@ fn run(rng: &mut Rng, idx: u64, tier: Tier) -> CaseOut {
         fopts.domain_pct = 50;
     }
     let net = crate::net::gen_net(rng, &nopts);
-    let f = gen_formula(rng, &fopts, &net.names);
+    let mut f = gen_formula(rng, &fopts, &net.names);
+    if extended && rng.chance(1, 3) {
+        // a restricted quantifier whose body has a part that does not mention the variable (a wild-card, a pattern,
+        // a proposition): only the cut to the colour's own slice of the domain keeps the colours apart
+        let prop = F::Prop(rng.pick(&net.names).clone());
+        let part = match rng.below(4) {
+            0 => F::Wild("p".to_string()),
+            1 => hyb(Hyb::Bind, "y", None, un(Un::AX, var("y"))),
+            2 => prop.clone(),
+            _ => un(Un::EF, F::Wild("p".to_string())),
+        };
+        let with_var = match rng.below(3) {
+            0 => un(Un::EX, var("x")),
+            1 => hyb(Hyb::Jump, "x", None, prop),
+            _ => var("x"),
+        };
+        let body = if rng.chance(1, 4) { part } else { bin(*rng.pick(&[Bin::Or, Bin::And]), part, with_var) };
+        let q = *rng.pick(&[Hyb::Bind, Hyb::Exists, Hyb::Forall]);
+        let crafted = F::Hyb(q, "x".to_string(), Some(rng.pick(&["d", "p"]).to_string()), Box::new(body));
+        f = if rng.coin() { crafted } else { bin(*rng.pick(&[Bin::Or, Bin::And]), crafted, f) };
+    }
     let k = f.quant_depth() as u16;
     let world = World::from_net(net, rng, 10, 128);
     if world.cs.bits.is_empty() {
